@@ -150,6 +150,54 @@ def _tlc_stimuli(module, cfgtext, descr):
         return res
 
 
+def gen_stimuli_sim(consts, num, depth, seed):
+    """Long random behaviours of an MC instance (tlc -simulate): one stimulus per behaviour = its whole call history.
+    They exist to catch behaviour that depends on state the shape abstraction does not contain."""
+    c = dict(MC_DEFAULTS)
+    c.update(consts)
+    cfgtext = mc_cfg_text(c)
+    key = sha('sim', spec_sha(), cfgtext, num, depth, seed)
+    d = os.path.join(CACHE, 'stim', key)
+    meta = os.path.join(d, 'meta.json')
+    with Lock(d):
+        if os.path.exists(meta):
+            return json.load(open(meta))
+        os.makedirs(d, exist_ok=True)
+        cfgp = os.path.join(d, 'MC.cfg')
+        open(cfgp, 'w').write(cfgtext)
+        t0 = time.time()
+        rc, out = java_tlc(['-simulate', 'num=%d' % num, '-depth', str(depth), '-seed', str(seed + 1), '-workers', '1', '-metadir', os.path.join(d, 'md'),
+                            '-config', cfgp, os.path.join(SPEC, 'SVecMC.tla')], timeout=3600, xmx='4g')
+        shutil.rmtree(os.path.join(d, 'md'), ignore_errors=True)
+        if 'violates the contract' in out or 'Invariant' in out and 'is violated' in out:
+            open(os.path.join(d, 'tlc.out'), 'w').write(out)
+            raise RuntimeError('TLC simulation found a design-level violation (see %s/tlc.out):\n%s' % (d, out[-2500:]))
+        # TLC evaluates every enabled call at every step of a behaviour and then follows one of them: the "S" lines
+        # whose history has the maximal length are the candidates for the LAST step of each behaviour
+        byhist = {}
+        maxlen = 0
+        for v in tlaparse.values(out, 'S'):
+            n = len(v[1])
+            if n < maxlen:
+                continue
+            if n > maxlen:
+                maxlen, byhist = n, {}
+            byhist.setdefault(' ; '.join(fmt_op(o) for o in v[1]), []).append(fmt_op(v[2]))
+        rnd = __import__('random').Random(seed)
+        bodies = []
+        for h in sorted(byhist):
+            for last in rnd.sample(sorted(set(byhist[h])), min(3, len(set(byhist[h])))):
+                bodies.append(h + ' ; ' + last)
+        best = {b: maxlen + 1 for b in bodies}
+        stim = os.path.join(d, 'stimuli.txt')
+        with open(stim, 'w') as f:
+            for n, body in enumerate(bodies):
+                f.write('S z%d 0 | %s\n' % (n, body))
+        res = dict(path=stim, generated=sum(best.values()), distinct=len(bodies), n=len(bodies), wall=time.time() - t0, consts=dict(c, sim=[num, depth, seed]), key=key)
+        json.dump(res, open(meta, 'w'))
+        return res
+
+
 def gen_stimuli(consts):
     """Model-check one MC instance of SVecMC (or SVecOrder when consts has 'Order'); returns
     dict(path=stimuli file, generated, distinct, n).  Stimulus line: 'S <id> <fmode> | op ; op ; ...'."""
